@@ -43,18 +43,9 @@ theorem inv_init : Inv St.init := by
   · intro t; simp [St.init]
   · simp [St.init]
 
-/-- under the invariant `enable()` is only reached with the tool id free: it never raises -/
-theorem enable_ok (s : St) (t : Nat) (h : Inv s) (h0 : s.count t = 0) :
-    ∃ s', s.enable t = .ok s' := by
-  unfold St.enable
-  by_cases ht : t = 0
-  · subst ht
-    have : s.tool = false := by
-      cases hb : s.tool with
-      | false => rfl
-      | true => have := h.2.1 hb; omega
-    simp [this]
-  · simp [ht]
+/-- `enable()` never raises (the tool id is claimed only when free: fix of F-C03c) -/
+theorem enable_ok (s : St) (t : Nat) (_h : Inv s) (_h0 : s.count t = 0) :
+    ∃ s', s.enable t = .ok s' := ⟨_, rfl⟩
 
 theorem step_en_count (s : St) (t t' : Nat) (h : Inv s) :
     (stepB s (.en t)).count t' = if t' = t then s.count t' + 1 else s.count t' := by
@@ -62,7 +53,7 @@ theorem step_en_count (s : St) (t t' : Nat) (h : Inv s) :
   by_cases h0 : s.count t = 0
   · obtain ⟨s', hs'⟩ := enable_ok s t h h0
     have hc : s'.count = s.count := by
-      unfold St.enable at hs'; split at hs' <;> simp at hs'; subst hs'; rfl
+      unfold St.enable at hs'; simp at hs'; subst hs'; rfl
     simp only [h0, if_true, hs', St.setCount, hc]
     by_cases htt : t' = t <;> simp [htt, h0]
   · simp only [h0, if_false, St.setCount]
@@ -91,7 +82,7 @@ theorem inv_step (s : St) (op : BOp) (h : Inv s) : Inv (stepB s op) := by
     · obtain ⟨s', hs'⟩ := enable_ok s t h h0
       simp only [h0, if_true, hs'] at hc ⊢
       have hs := hs'
-      unfold St.enable at hs; split at hs <;> simp at hs; subst hs
+      unfold St.enable at hs; simp at hs; subst hs
       constructor
       · intro t'
         rw [hc t']
